@@ -37,6 +37,9 @@ type cAttempt struct {
 	// (cScript.BufMax): the read fails with bufio.ErrTooLong, which is a lost connection like any other.
 	Oversized bool  `json:"oversized,omitempty"`
 	Latency   int64 `json:"latency,omitempty"` // virtual ns spent inside RoundTrip
+	// ViaRedirect: the response was reached through a followed permanent redirect: its Request field is the
+	// request net/http built for the final hop (no GetBody, Response set to the 308)
+	ViaRedirect bool `json:"via_redirect,omitempty"`
 	// StreamDelay: virtual ns that pass on the established connection before the first byte of the stream arrives
 	StreamDelay int64 `json:"stream_delay,omitempty"`
 	Cuts        []int `json:"cuts,omitempty"`
@@ -369,6 +372,12 @@ func runClient(t *testing.T, sc *cScript) (obs *cObs) {
 				sp.Stream += "data: " + strings.Repeat("O", sc.BufMax+64) + "\n\ndata: never\n\n"
 				obs.ReadErrs[a] = bufio.ErrTooLong
 			}
+			respReq := r
+			if sp.ViaRedirect {
+				respReq = r.Clone(r.Context())
+				respReq.GetBody = nil
+				respReq.Response = &http.Response{StatusCode: http.StatusPermanentRedirect, Header: http.Header{"Location": []string{"http://verif.invalid/moved"}}}
+			}
 			cr := &mon.ChunkReader{Data: sp.Stream, Cuts: sp.Cuts}
 			var body io.Reader = cr
 			if sp.StreamDelay > 0 {
@@ -405,7 +414,7 @@ func runClient(t *testing.T, sc *cScript) (obs *cObs) {
 				}
 			}
 			return &http.Response{Status: "200 OK", StatusCode: 200, Proto: "HTTP/1.1", ProtoMajor: 1, ProtoMinor: 1,
-				Header: http.Header{"Content-Type": []string{"text/event-stream; charset=utf-8"}}, Body: closeAware{body, &bodyClosed, closeErr}, Request: r, ContentLength: -1}, nil
+				Header: http.Header{"Content-Type": []string{"text/event-stream; charset=utf-8"}}, Body: closeAware{body, &bodyClosed, closeErr}, Request: respReq, ContentLength: -1}, nil
 		})
 		cl := &sse.Client{
 			HTTPClient: &http.Client{Transport: rt},
